@@ -88,40 +88,98 @@ func poll(limit time.Duration, cond func() bool) bool {
 	}
 }
 
+// stallLimit bounds every wait for something that the code under test must do
+// without any further input from the harness. It is deliberately generous and
+// it is never the correctness signal: running into it discards the case.
+const stallLimit = 30 * time.Second
+
+const dogTick = 25 * time.Millisecond
+
+// dog decides, while the harness waits for the code under test, whether the wait
+// can still end. The correctness signal is structural: if at three consecutive
+// samples every goroutine that executes kraken or harness code (other than the
+// waiting harness goroutine itself) is parked on a synchronisation object, nothing
+// can make progress any more - the awaited event will never happen ("deadlock").
+// Mere slowness ends in "timeout", which discards the case.
+type dog struct {
+	self  int64
+	quiet int
+	start time.Time
+}
+
+func newDog() *dog { return &dog{self: gid(), start: time.Now()} }
+
+func (d *dog) tick() string {
+	if quiescent(d.self) {
+		d.quiet++
+		if d.quiet >= 3 {
+			return "deadlock"
+		}
+	} else {
+		d.quiet = 0
+	}
+	if time.Since(d.start) > stallLimit {
+		return "timeout"
+	}
+	return ""
+}
+
+func quiescent(self int64) bool {
+	for id, g := range dump() {
+		if id == self {
+			continue
+		}
+		if !strings.Contains(g.text, "github.com/uber/kraken/") && !strings.Contains(g.text, "verif/c29") {
+			continue
+		}
+		if !g.blocked() || strings.HasPrefix(g.state, "sleep") {
+			return false
+		}
+	}
+	return true
+}
+
+// waitUntil polls cond; it returns "" once cond holds, else "deadlock" or "timeout".
+func waitUntil(cond func() bool) string {
+	if poll(dogTick, cond) {
+		return ""
+	}
+	d := newDog()
+	for {
+		if poll(dogTick, cond) {
+			return ""
+		}
+		if k := d.tick(); k != "" {
+			return k
+		}
+	}
+}
+
 // waitGone waits until the goroutine with the given id has exited.
-func waitGone(id int64, limit time.Duration) bool {
-	return poll(limit, func() bool {
+func waitGone(id int64) string {
+	return waitUntil(func() bool {
 		_, ok := dump()[id]
 		return !ok
 	})
 }
 
-// stallLimit bounds every wait for something that the code under test must do
-// without any further input from the harness. It is deliberately generous; it
-// is never the correctness signal (see stall).
-const stallLimit = 30 * time.Second
-
-// stall judges a wait that ran out: if every goroutine the harness was waiting
-// for is parked on a synchronisation object although the harness owes it
-// nothing, it can never proceed - that is reported. Otherwise (still runnable:
-// the machine is slow) the case is discarded.
-func stall(what string, ids ...int64) pbt.Verdict {
+// stall turns a wait that ended without the awaited event into a verdict.
+func stall(kind, what string, ids ...int64) pbt.Verdict {
+	if kind != "deadlock" {
+		return pbt.Verdict{Discard: true, Classes: []string{"discard-slow-machine"}}
+	}
 	d := dump()
 	var where []string
 	for _, id := range ids {
-		g, ok := d[id]
-		if !ok {
-			continue
+		if g, ok := d[id]; ok {
+			st := g.state
+			if i := strings.IndexByte(st, ','); i > 0 {
+				st = st[:i]
+			}
+			where = append(where, fmt.Sprintf("[%s] %s", st, frames(g.text)))
 		}
-		if !g.blocked() {
-			return pbt.Verdict{Discard: true, Classes: []string{"discard-slow-machine"}}
-		}
-		where = append(where, fmt.Sprintf("goroutine %d [%s]: %s", id, g.state, frames(g.text)))
 	}
-	if len(where) == 0 {
-		return pbt.Verdict{Discard: true, Classes: []string{"discard-slow-machine"}}
-	}
-	return pbt.Fail("%s: blocked for good although nothing it may wait for is outstanding (%s)", what, strings.Join(where, "; "))
+	return pbt.Fail("%s: every goroutine is parked, so it never will (%s)", what, strings.Join(where, "; "))
 }
 
 // frames returns the kraken and sync function names of a goroutine dump block.
@@ -137,6 +195,19 @@ func frames(text string) string {
 	}
 	return strings.Join(out, " < ")
 }
+
+// spinBarrier releases a group of goroutines as simultaneously as the machine
+// allows: they poll a flag instead of sleeping on a channel, so those that hold a
+// CPU leave the barrier within nanoseconds of each other.
+type spinBarrier struct{ flag int32 }
+
+func (b *spinBarrier) wait() {
+	for atomic.LoadInt32(&b.flag) == 0 {
+		runtime.Gosched()
+	}
+}
+
+func (b *spinBarrier) open() { atomic.StoreInt32(&b.flag, 1) }
 
 // ---- clock -------------------------------------------------------------------
 
